@@ -240,7 +240,12 @@ def task_c14(kind, op):
         run.explorer.minimize = [n, HW["n"], HR["n"], HC["n"]]
         run.explorer.witness = c14_witness(I, {"kind": kind, "op": op, "n_write": HW["n"], "n_change": HC["n"], "n_read": HR["n"]})
         # requested value: a legal value of the element's type
-        if kind in ("text", "light"):
+        if kind == "switch":
+            from contracts.switch import ON, OFF, vocab
+            req = I.fresh_sym("req")
+            run.assume(z3.Or(req.term == ON, req.term == OFF))
+            run.assume(vocab(v["val0"], n))
+        elif kind in ("text", "light"):
             req = I.fresh_sym("req")
             run.assume(is_str(req.term))
             if kind == "light":
@@ -296,7 +301,7 @@ def task_c14(kind, op):
             run.oblige("C14|%s/every-Write-handler-invoked-exactly-once" % label, once(HW))
             run.oblige("C14|%s/coroutine-Write-handlers-are-scheduled-as-tasks-plain-ones-are-not" % label, tasks_ok(HW, z3.BoolVal(True)))
             run.oblige("C14|%s/Write-handlers-get-the-requested-value-and-the-element" % label,
-                       forall(j, implies(in_range(j, HW["n"]), z3.And(z3.Select(HW["payload_new_value"], j) == reqt, z3.Select(HW["element_ok"], j)))))
+                       forall(j, implies(in_range(j, HW["n"]), z3.And(z3.Select(HW["payload_new_value"], j) == I.to_term(req), z3.Select(HW["element_ok"], j)))))
             run.oblige("C14|%s/plain-Write-handlers-run-before-any-state-change" % label,
                        forall(j, implies(in_range(j, HW["n"]), z3.Select(HW["seen_value"], j) == old)))
         nserial = len(published)
@@ -308,7 +313,11 @@ def task_c14(kind, op):
         if nserial == 0:
             run.oblige("C14|%s/unvetoed-write-publishes-exactly-one-update" % label, vetoed)
             return
-        run.oblige("C14|%s/takes-the-value" % label, val1 == reqt)
+        if kind != "switch":
+            run.oblige("C14|%s/takes-the-value" % label, val1 == reqt)
+        else:
+            # a switch takes the value the rule allows (C09); the event contract is about the value actually stored
+            reqt = val1
         run.oblige("C14|%s/publishes-exactly-one-update" % label, z3.BoolVal(nserial == 1))
         run.oblige("C14|%s/the-published-update-carries-the-new-value" % label, published[0][1] == reqt)
         changed = old != reqt
